@@ -23,20 +23,23 @@ pub struct Observer {
     pub fed: BTreeSet<u64>,
     pub started: u64,
     pub snapshots: u32,
+    /// `cache_proposals(false)`: the application (the harness) hands accepted proposals back with
+    /// `insert_proposal_from_message`
+    pub app_cache: bool,
 }
 
 fn viol(w: &World, oracle: &str, sig: String, detail: String) -> Violation {
     Violation::new(&w.cfg.property, oracle, sig, detail)
 }
 
-fn make_client(w: &World, jitter: Option<u64>) -> ExternalClient<ExtCfg> {
+fn make_client(w: &World, jitter: Option<u64>, app_cache: bool) -> ExternalClient<ExtCfg> {
     let crypto = SimCrypto::new(w.cfg.providers[0], w.idgen_ctx.clone());
     let mut b = ExternalClient::builder()
         .identity_provider(SimIdentity::default())
         .crypto_provider(crypto)
         .extension_type(mls_rs::extension::ExtensionType::new(0xF001))
         .custom_proposal_types(Some(mls_rs::group::proposal::ProposalType::new(0xF000)))
-        .cache_proposals(true);
+        .cache_proposals(!app_cache);
     if let Some(j) = jitter {
         b = b.max_epoch_jitter(j);
     }
@@ -75,7 +78,8 @@ pub fn do_observe(w: &mut World, g: usize, jitter_code: u64) -> VResult<bool> {
         };
         (gi, grp.export_tree().to_bytes().unwrap_or_default())
     };
-    let client = make_client(w, jitter);
+    let app_cache = crate::prng::mix(&[w.seed, 0x0b5e, w.ext.observers.len() as u64, latest]) % 3 == 0;
+    let client = make_client(w, jitter, app_cache);
     let now = w.now();
     let r = guarded(&prop, "observe_group", || {
         let t = if with_tree {
@@ -87,7 +91,10 @@ pub fn do_observe(w: &mut World, g: usize, jitter_code: u64) -> VResult<bool> {
     })?;
     match r {
         Ok(group) => {
-            w.ev(format!("observe g{g} from P{src} at e{latest} jitter={jitter:?}"));
+            w.ev(format!("observe g{g} from P{src} at e{latest} jitter={jitter:?} app_cache={app_cache}"));
+            if app_cache {
+                w.stats.probe("observer-with-application-side-proposal-cache");
+            }
             *w.stats.probes.entry(format!("observer-jitter:{jitter_code}")).or_default() += 1;
             let mut fed = BTreeSet::new();
             // everything of earlier epochs is irrelevant for a fresh observer
@@ -104,6 +111,7 @@ pub fn do_observe(w: &mut World, g: usize, jitter_code: u64) -> VResult<bool> {
                 fed,
                 started: latest,
                 snapshots: 0,
+                app_cache,
             });
             check_state(w, w.ext.observers.len() - 1, "observe_group")?;
             Ok(true)
@@ -232,8 +240,48 @@ pub fn do_obs_feed(w: &mut World, k: usize, app_pick: u64) -> VResult<bool> {
                 (_, ExternalReceivedMessage::Ciphertext(_)) if msg.private => {
                     w.stats.probe("observer-sees-encrypted-handshake");
                 }
-                (MsgKind::Proposal, ExternalReceivedMessage::Proposal(_)) => {}
+                (MsgKind::Proposal, ExternalReceivedMessage::Proposal(_)) => {
+                    if w.ext.observers[k].app_cache {
+                        let b2 = msg.bytes.clone();
+                        let mut grp = w.ext.observers[k].group.clone();
+                        let r = guarded(&prop, "observer.insert_proposal_from_message", || {
+                            grp.insert_proposal_from_message(MlsMessage::from_bytes(&b2)?)
+                        })?;
+                        if let Err(e) = r {
+                            return Err(viol(
+                                w,
+                                "observer-accepts-what-members-accept",
+                                format!("observer-insert-proposal-failed:{}", err_class(&e)),
+                                format!("observer {k} could not insert the accepted proposal {id}: {e:?}"),
+                            ));
+                        }
+                        w.ext.observers[k].group = grp;
+                    }
+                    // the reference the harness computes for its forged commits is the library's
+                    if let Some(want) = crate::c10::proposal_ref_of(w.cfg.suite, &msg.bytes) {
+                        let cached = w.ext.observers[k].group.get_cached_proposals();
+                        if !cached.iter().any(|c| c.proposal_ref().to_vec() == want) {
+                            return Err(Violation::new(
+                                "HARNESS",
+                                "proposal-ref",
+                                "proposal-ref-computation".into(),
+                                format!("the observer's cache does not hold proposal {id} under the reference the harness computed"),
+                            ));
+                        }
+                    }
+                }
                 (MsgKind::Commit, ExternalReceivedMessage::Commit(_)) => {
+                    // proposals belong to one epoch: none is kept across the epoch change
+                    let left = w.ext.observers[k].group.get_cached_proposals().len();
+                    w.stats.check("observer-proposal-cache-empty-after-commit");
+                    if left != 0 {
+                        return Err(viol(
+                            w,
+                            "observer-proposal-cache",
+                            "observer-keeps-proposals-of-closed-epoch".into(),
+                            format!("observer {k} still caches {left} proposal(s) of epoch {} after moving to the next epoch with commit {id}", msg.epoch),
+                        ));
+                    }
                     let ne = w.ext.observers[k].group.group_context().epoch;
                     w.ev(format!("observer {k} g{g} commit {id} -> e{ne}"));
                     check_state(w, k, "commit")?;
@@ -353,7 +401,7 @@ pub fn do_obs_snapshot(w: &mut World, k: usize) -> VResult<bool> {
     let prop = w.cfg.property.clone();
     let bytes = w.ext.observers[k].group.snapshot().to_bytes().unwrap_or_default();
     crate::oracles::on_wire(w, &bytes, "external_snapshot")?;
-    let client = make_client(w, w.ext.observers[k].jitter);
+    let client = make_client(w, w.ext.observers[k].jitter, w.ext.observers[k].app_cache);
     let r = guarded(&prop, "observer.load_group", || {
         client.load_group(ExternalSnapshot::from_bytes(&bytes)?)
     })?;
@@ -463,6 +511,79 @@ pub fn do_obs_propose(w: &mut World, k: usize, what: u64, q: usize) -> VResult<b
                 w.mem(p, g).inbox.push(id);
             }
             w.ext.ext_proposals.insert(id);
+            Ok(true)
+        }
+    }
+}
+
+/// a commit, correctly signed by a real member, that refers to a proposal of an epoch the observer has left
+pub fn do_obs_stale_ref(w: &mut World, k: usize, pick: u64) -> VResult<bool> {
+    if k >= w.ext.observers.len() {
+        return Ok(false);
+    }
+    let g = w.ext.observers[k].g;
+    let epoch = w.ext.observers[k].group.group_context().epoch;
+    let started = w.ext.observers[k].started;
+    let Some(rec) = w.groups[g].records.get(&epoch).cloned() else { return Ok(false) };
+    let Some(members) = w.groups[g].members.get(&epoch).cloned() else { return Ok(false) };
+    // a proposal the observer accepted in an earlier epoch that needs no update path and is still applicable
+    let mut cands: Vec<u64> = vec![];
+    for (id, m) in &w.msgs {
+        if m.g != g || m.kind != MsgKind::Proposal || m.private || m.epoch >= epoch || m.epoch < started {
+            continue;
+        }
+        if !w.ext.observers[k].fed.contains(id) || m.sender == EXT_SENDER {
+            continue;
+        }
+        let ok = match &m.pspec {
+            Some(PropSpec::Add { q }) => !members.contains_key(q) && !rec.roster.iter().any(|(_, n, _)| *n == w.parties[*q].name),
+            Some(PropSpec::Custom { .. }) => w.cfg.knob("custom-path").is_none(),
+            _ => false,
+        };
+        if ok {
+            cands.push(*id);
+        }
+    }
+    if cands.is_empty() {
+        return Ok(false);
+    }
+    let pid = cands[pick as usize % cands.len()];
+    let Some(pref) = crate::c10::proposal_ref_of(w.cfg.suite, &w.msgs[&pid].bytes) else { return Ok(false) };
+    // the signer: a member of this epoch whose leaf carries the key the harness holds
+    let signer = members.iter().find(|(p, leaf)| {
+        rec.roster
+            .iter()
+            .any(|(i, _, key)| i == *leaf && key.as_slice() == w.parties[**p].signing_identity.signature_key.as_ref())
+    });
+    let Some((s, sleaf)) = signer.map(|(p, l)| (*p, *l)) else { return Ok(false) };
+    let mut r = crate::prng::Prng::new(crate::prng::mix(&[w.seed, w.step_no as u64, 0x57a1e]));
+    let nh = crate::refmls::HashAlg::for_suite(w.cfg.suite).len();
+    let (tag, mk) = (r.bytes(nh), r.bytes(nh));
+    let Some(bytes) = crate::c10::build_forged(w, s, g, epoch, sleaf, &rec.ctx, &[(2u8, pref)], &mk, &tag) else {
+        return Ok(false);
+    };
+    let prop = w.cfg.property.clone();
+    let now = w.now();
+    let mut grp = w.ext.observers[k].group.clone();
+    let res = guarded(&prop, "observer.process_incoming_message(stale reference)", || {
+        grp.process_incoming_message_with_time(MlsMessage::from_bytes(&bytes)?, now)
+    })?;
+    w.stats.fault("B-FORGE");
+    w.stats.check("observer-rejects-stale-proposal-reference");
+    match res {
+        Ok(_) => Err(viol(
+            w,
+            "observer-rejects-invalid",
+            "observer-accepted-stale-proposal-reference".into(),
+            format!(
+                "observer {k} at epoch {epoch} accepted a commit signed by P{s} that refers to proposal {pid} of epoch {}; members reject it (the proposal is not of this epoch)",
+                w.msgs[&pid].epoch
+            ),
+        )),
+        Err(e) => {
+            let cls = err_class(&e);
+            w.ev(format!("observer {k} stale-ref commit (proposal {pid}) err {cls}"));
+            *w.stats.probes.entry(format!("observer-stale-ref:{cls}")).or_default() += 1;
             Ok(true)
         }
     }
